@@ -106,14 +106,38 @@ func runC11(c *fw.Ctx) {
 	}
 	c11Run(c, &item, c11Universe, c11Lists())
 	c11Run(c, &item, c11UniverseU, c11ListsU())
+	// a bucket larger than the default page size (1000): default paging, page sizes around it
+	var big []string
+	for i := 0; i < 1003; i++ {
+		big = append(big, fmt.Sprintf("n%04d", i))
+	}
+	big = append(big, "d/1", "d/2", "z")
+	var bigLists []GOp
+	for _, p := range []string{"", "n0", "n1", "d/"} {
+		for _, d := range []string{"", "/", "0"} {
+			for _, mx := range []string{"", "1000", "999", "1001", "500"} {
+				bigLists = append(bigLists, GOp{Kind: "List", Bucket: "b", Prefix: p, Delim: d, MaxRes: mx})
+			}
+		}
+	}
+	c11RunFixed(c, &item, big, bigLists)
+	c.Bound("large_bucket_objects", len(big))
 	c.Bound("universe", c11Universe)
 	c.Bound("universe_unicode", fmt.Sprintf("%+q", c11UniverseU))
 	c.Bound("list_requests_per_bucket", len(c11Lists()))
 	c.Bound("list_requests_per_bucket_unicode", len(c11ListsU()))
 }
 
+// c11RunFixed lists ONE bucket holding exactly the given names.
+func c11RunFixed(c *fw.Ctx, itemp *int64, names []string, lists []GOp) {
+	c11RunSets(c, itemp, [][]string{names}, lists)
+}
+
 func c11Run(c *fw.Ctx, itemp *int64, universe []string, lists []GOp) {
-	subsets := subsetsOf(universe)
+	c11RunSets(c, itemp, subsetsOf(universe), lists)
+}
+
+func c11RunSets(c *fw.Ctx, itemp *int64, subsets [][]string, lists []GOp) {
 	item := *itemp
 	defer func() { *itemp = item }()
 	for _, store := range []string{"mem", "file"} {
